@@ -84,6 +84,12 @@ class CellCtx:
         return out.astype(dtype)
 
     @staticmethod
+    def expected(arr, vals, bvals=None):
+        """Float value of a harness-side reference (array of Poly) under a witness."""
+        from .sym import eval_array
+        return eval_array(arr, vals, bvals)
+
+    @staticmethod
     def deviates(lhs, rhs, rtol=1e-3):
         lhs = np.asarray(lhs, dtype=np.float64)
         rhs = np.asarray(rhs, dtype=np.float64)
